@@ -5,8 +5,8 @@ from lib import vlib
 RULE = ("interleavings: TLC checks Isolation and ModulePrivacy for 2 and 3 VMs at the grain of the instructions that touch the shared "
         "constants and the private module cache (load / store-with-copy / write / read) and exports all 70 complete interleavings of 2 "
         "VMs; each is forced on two real VMs sharing one Bytecode through the per-instruction gate and the results compared with the "
-        "solo results; free-running: 16 goroutines x rounds x 7 programs (builtin-module and source-module mutation, closures, "
-        "try/finally loops, thrown errors formatted with %+v, Invoker callbacks on pooled child VMs, sprintf) on shared Bytecode in a "
+        "solo results; free-running: 16 goroutines x rounds x 11 programs, every round on Bytecode no VM has run before (builtin-module and source-module mutation, closures, "
+        "try/finally loops, thrown and runtime errors raised by every VM at another place of the same shared functions and formatted with %+v, Invoker callbacks on pooled child VMs, sprintf) on shared Bytecode in a "
         "binary built with the race detector: a result different from the solo result or a race report is a violation; "
         "non-trivial = interleavings in which the two VMs alternate at least once")
 
